@@ -158,6 +158,9 @@ def rt_jobs(rng, n):
             vals[0], vals[3] = 1, 1
             vals[1] = rng.choice([0, 0, 0.5, -2.5, 3])
             vals[2] = rng.choice([0, 0, 0.25, -1, 2])
+        if rng.random() < 0.15:
+            # values Python prints in exponent form (mantissa with a fraction, exponent ending in 0)
+            vals[rng.randrange(6)] = rng.choice([2.5e-10, -1.5e-20, 3.25e-30, 1.5e-10, 7.5e-100])
         m = Affine2D(*vals)
         s = m.tostring()
         rec = {"kind": "rt", "m": [int(v * 1000) for v in vals] + [1000], "s": list(s)}
